@@ -129,6 +129,27 @@ def programs(tier: str):
                 p = _prog((), ending, cancels, False, dvar)
                 p["block"]["spawns"] = [{"kind": "wait_dispose", "pauses": 0} for _ in range(n_wait)] + [dict(SPAWNS[1])]
                 yield p
+    # DEEP nesting: 4..6 (8) asynchronous scopes (optionally with sync scopes / updates between
+    # them) nested in each other, tasks spawned at the innermost level / at every level: each
+    # block waits for (or cancels) exactly the tasks spawned into it
+    for depth in (4, 5, 6) if tier == "quick" else (4, 5, 6, 8):
+        for pattern in ("a", "as", "aua"):
+            for where in ("innermost", "every"):
+                for sp in (1, 3):
+                    for ending, cancels in (("return", 0), ("raise", 0), ("return", 1)):
+                        if cancels and (depth > 4 or where == "every"):
+                            continue
+                        blk = None
+                        for lvl in reversed(range(depth)):
+                            kind = {"a": "ascope", "s": "sscope", "u": "updated"}[pattern[lvl % len(pattern)]]
+                            b = {"kind": kind, "supply": ["A"], "pause": lvl == depth - 1, "ending": ending if lvl == depth - 1 else "return"}
+                            if kind == "ascope":
+                                b["disp"] = []
+                                b["spawns"] = [dict(SPAWNS[sp])] if (where == "every" or lvl == depth - 1 or (lvl == depth - 2 and pattern != "a")) else []
+                            if blk is not None:
+                                b["child"] = blk
+                            blk = b
+                        yield {"outer": False, "block": blk, "cancels": cancels, "deep": depth}
     extra_k = kmax + 1
     pool = [0, 1, 3, 4, 5] if tier == "quick" else [1, 2, 4, 5]
     for combo in itertools.combinations_with_replacement(pool, extra_k):
@@ -401,14 +422,15 @@ def execute(program, ch: Chooser) -> Result:  # noqa: C901, PLR0912
 
     def on_quiescent() -> None:
         # after a failed / cancelled body the exit must not sit waiting for blocked tasks
-        if r.driver is None or r.driver.done() or r.phase != ["exiting", 0]:
+        if r.driver is None or r.driver.done() or r.phase[0] != "exiting" or not isinstance(r.phase[1], int):
             return
-        failed = 0 in r.body_exc
-        if any(d.in_exit for d in r.disp.get(0, [])):
+        bid = r.phase[1]
+        failed = bid in r.body_exc
+        if any(d.in_exit for d in r.disp.get(bid, [])):
             return  # the exit is waiting for a disposable's clean-up, not for the tasks (yet)
         if failed and not waited:
             # (a task that has been asked to cancel and is still cleaning up is legitimately awaited)
-            blocked = [s["name"] for s in r.all_spawned if s["task"] is not None and not s["task"].done() and s["task"].cancelling() == 0]
+            blocked = [s["name"] for s in r.all_spawned if (bid == 0 or s.get("owner") == bid) and s["task"] is not None and not s["task"].done() and s["task"].cancelling() == 0]
             if blocked:
                 waited.append(blocked)
 
@@ -426,7 +448,7 @@ def execute(program, ch: Chooser) -> Result:  # noqa: C901, PLR0912
         if r.hang or r.driver is None or not r.driver.done():
             viols.append(viol("termination", "exit-hangs", "leaving the block terminates", obs["tasks"]))
         else:
-            alive = [t["name"] for t in r.at_return.get(0, []) if not t["done"]]
+            alive = [t["name"] for bid_ in sorted(k_ for k_ in r.at_return if isinstance(k_, int)) for t in r.at_return.get(bid_, []) if not t["done"]]
             if alive:
                 viols.append(
                     viol(
